@@ -67,7 +67,7 @@ def fingerprint(n):
     def norm(x):
         if isinstance(x, dict):
             out = [x.get('kind'), x.get('opcode'), x.get('value'), x.get('name'), x.get('castKind'),
-                   x.get('isPostfix'), (x.get('type') or {}).get('qualType'),
+                   x.get('isPostfix'), re.sub(r'\((unnamed|anonymous) [^)]*\)', '(unnamed)', (x.get('type') or {}).get('qualType') or ''),
                    (x.get('referencedDecl') or {}).get('name')]
             return [out, [norm(c) for c in x.get('inner', [])]]
         return x
